@@ -397,6 +397,12 @@ def via_callers(prog, fn, S, depth):
             return []  # passed around as a value: call sites unknown
         pos, neg = evidence(prog, caller, b)
         if not pos:
+            # the call site itself may be justified by one of the correlation idioms (e.g. it lies
+            # on the None edge of a callee that returns None only with a schema)
+            cobj = caller.call_at(b)
+            if cobj is not None:
+                pos = correlations(prog, caller, cobj)
+        if not pos:
             pos = via_callers(prog, caller, S, depth + 1)
         if not pos:
             return []
